@@ -242,6 +242,8 @@ func (r *run) oneClasses(cls [][]int, rng *hx.Rng, relabels int) string {
 	if k := g.RelabelledGraph6(ps); k != key0 {
 		r.fail("noninvariant", cls, "canonical graph with classes %s: dense %s sparse %s", cx.ClassesString(cls), key0, k)
 	}
+	// the same graph handed over in other representations (prov.go)
+	checkProvenances(g, cls, rng, 2, wantOrb, wantOrder, key0, func(kind, msg string) { r.fail(kind, cls, "%s (classes %s)", msg, cx.ClassesString(cls)) })
 	// class-respecting relabellings: the copy h = g relabelled by p with the classes carried along
 	// must have the same canonical graph, and its orbits must be the images of the orbits of g
 	try := func(p []int, rot int) {
@@ -609,6 +611,13 @@ func exec(line string) hx.Result {
 		}
 		return execSeq(capn, strings.Fields(f[2]))
 	}
+	if mode == "hold" {
+		capn, err := strconv.Atoi(f[1])
+		if err != nil {
+			return hx.Result{Obs: "badcase"}
+		}
+		return execHold(capn, strings.Fields(f[2]))
+	}
 	if mode == "rst" {
 		capn, err := strconv.Atoi(f[1])
 		if err != nil {
@@ -616,12 +625,12 @@ func exec(line string) hx.Result {
 		}
 		return execReset(capn, strings.Fields(f[2]))
 	}
-	if mode == "big" {
+	if mode == "big" || mode == "huge" {
 		g := strings.Split(f[2], ";")
 		if len(g) != 4 {
 			return hx.Result{Obs: "badcase"}
 		}
-		return execBig(fam, f[1], g[0], g[1], g[2], g[3])
+		return execBig(mode, fam, f[1], g[0], g[1], g[2], g[3])
 	}
 	if mode == "chk" || mode == "chkp" {
 		g := strings.Split(f[2], ";")
@@ -921,8 +930,13 @@ func gen(g *hx.Gen) {
 			}
 		}
 	}
-	// larger graphs (n = 17..70) with construction-known and metamorphic oracles (big.go)
+	// structural class shapes and unions of different symmetric components, in volume (shapes.go)
+	genShapes(g, func(fam string, gr *cx.G, cls [][]int) { g.Emit(chkLine(fam, gr, gr.Graph6(), cls)) })
+	// larger graphs (n = 17..70, a few up to 257) with construction-known and metamorphic oracles (big.go)
 	genBig(g)
+	// results held, inputs scribbled, two storages interleaved, recovered panic (hold.go)
+	genHold(g, pool)
+	genLargeReuse(g, pool)
 	// reuse sequences: ~50 graphs through one storage/partition pair, sizes going up and down
 	for s := 0; s < g.Pick(150, 1500); s++ {
 		capn := g.Rng.Range(4, g.Pick(12, 16))
